@@ -218,7 +218,7 @@ Qed.
 Lemma init_loads_mod h n : n <> 0%N -> forall ring i, init_loads h n i ring = init_loads (h mod n) n i ring.
 Proof.
   intros Hn. induction ring as [|x ring IH]; intros i; simpl; [reflexivity|].
-  f_equal; [|apply IH]. f_equal. rewrite N.add_mod_idemp_r by exact Hn. reflexivity.
+  f_equal; [|apply IH]. f_equal. rewrite !wrap_v2_id. rewrite N.add_mod_idemp_r by exact Hn. reflexivity.
 Qed.
 Lemma v2_fill_phase_mod h p r olds ring : ring <> [] ->
   v2_fill_phase h p r olds ring = v2_fill_phase (h mod N.of_nat (length ring)) p r olds ring.
